@@ -255,11 +255,10 @@ CHECKS = {
     },
     "C08": {
         "bin": "c08",
-        "quick": cfgs(["dflt", "rdxfmt"], features="catalogue"),
-        "thorough": cfgs(["dflt", "cmp", "fmt", "rdxfmt", "cmprdxfmt"], features="catalogue"),
+        "quick": cfgs(["dflt", "rdxfmt"]),
+        "thorough": cfgs(["dflt", "cmp"]) + cfgs(["fmt", "rdxfmt", "cmprdxfmt"], features="catalogue,prebuiltw"),
         "rule": "formats: STANDARD, 13 writer-flag formats (required signs, required / no exponent notation, no exponent without fraction, radix 2/3/16/36 "
-                "variants), every radix 2..36, 15 mixed-base formats, prebuilt language formats (quick: one per distinct writer-relevant flag vector; "
-                "thorough: all 147) x float values (binade borders and patterns stepped, extremes, decimal landmarks, +-0, +-inf, NaNs, every 3rd negated) "
+                "variants), every radix 2..36, 15 mixed-base formats, prebuilt language formats (thorough tier only: all 147) x float values (binade borders and patterns stepped, extremes, decimal landmarks, +-0, +-inf, NaNs, every 3rd negated) "
                 "x agreeing writer/parser option pairs (decimal point x exponent character from sets valid for the radix, 4 special-string sets incl. None, "
                 "trim_floats, exponent breaks incl. -1/+1 and +-400/+-1100): the written bytes must be accepted in full by the complete parser of the same "
                 "format; bits equal for decimal and power-of-two radices, for zeros and infinities, NaN reads back as NaN; plus all 12 integer types in "
